@@ -1,0 +1,101 @@
+//
+// Verification hooks (add-only, compiled in only with -DRIME_VERIF_HOOKS).
+//
+// One text log, named by $VERIF_DBLOG, receives
+//   D <op> <db name> <hex key> <hex value> <loaded> <in_transaction>
+//       one line at the entry of each user-db operation of LevelDb, and
+//   E <depth> <event...>
+//       one line per user-dictionary protocol event of Memory/UserDictionary.
+// When $VERIF_CRASH_AT=n is set the process is killed (_exit(137)) at the
+// entry of the db operation that would be number n (counting from 0), i.e.
+// after exactly n operations have been carried out.
+//
+#ifndef RIME_VERIF_HOOKS_H_
+#define RIME_VERIF_HOOKS_H_
+#ifdef RIME_VERIF_HOOKS
+
+#include <fcntl.h>
+#include <unistd.h>
+#include <cstdio>
+#include <cstdlib>
+#include <ctime>
+#include <string>
+
+namespace rime {
+namespace verif {
+
+inline std::string hex(const std::string& s) {
+  static const char* d = "0123456789abcdef";
+  if (s.empty())
+    return "-";
+  std::string r;
+  for (unsigned char c : s) {
+    r += d[c >> 4];
+    r += d[c & 15];
+  }
+  return r;
+}
+
+inline std::string ptr(const void* p) {
+  char buf[32];
+  snprintf(buf, sizeof buf, "%p", p);
+  return buf;
+}
+
+inline void log_line(const std::string& line) {
+  const char* path = getenv("VERIF_DBLOG");
+  if (!path || !*path)
+    return;
+  int fd = open(path, O_WRONLY | O_APPEND | O_CREAT, 0644);
+  if (fd < 0)
+    return;
+  std::string l(line + "\n");
+  if (write(fd, l.data(), l.size()) < 0) {
+  }
+  close(fd);
+}
+
+inline int& depth() {
+  static int d = 0;
+  return d;
+}
+
+// a user-db operation: kill point, then log line
+inline void db_op(const char* op,
+                  const std::string& db,
+                  const std::string& key,
+                  const std::string& value,
+                  bool loaded,
+                  bool in_transaction) {
+  static long counter = 0;
+  static long crash_at =
+      getenv("VERIF_CRASH_AT") ? atol(getenv("VERIF_CRASH_AT")) : -1;
+  const char* path = getenv("VERIF_DBLOG");
+  if (!path || !*path)
+    return;
+  if (counter == crash_at)
+    _exit(137);
+  ++counter;
+  log_line(std::string("D\t") + op + "\t" + db + "\t" + hex(key) + "\t" +
+           hex(value) + "\t" + (loaded ? "1" : "0") + "\t" +
+           (in_transaction ? "1" : "0"));
+}
+
+inline void event(const std::string& what) {
+  log_line("E\t" + std::to_string(depth()) + "\t" + what);
+}
+
+// an event whose handler's own nested calls are logged at depth + 1
+struct Event {
+  explicit Event(const std::string& what) {
+    event(what);
+    ++depth();
+  }
+  ~Event() { --depth(); }
+};
+
+}  // namespace verif
+}  // namespace rime
+
+#endif  // RIME_VERIF_HOOKS
+#endif  // RIME_VERIF_HOOKS_H_
